@@ -2771,12 +2771,11 @@ class Parameters:
             private = self_.self._param__private
             if arg is not Undefined:
                 # (an iterable of pairs may be one that can only be consumed
-                # once; a malformed argument is left for _update to refuse)
-                try:
-                    arg = dict(arg)
-                except (TypeError, ValueError):
-                    pass
-            params = list(kwargs if arg is Undefined or not isinstance(arg, dict) else dict(arg, **kwargs))
+                # once; nothing has been switched yet, so whatever consuming
+                # it raises - a malformed pair, the caller's own error -
+                # simply propagates)
+                arg = dict(arg)
+            params = list(kwargs if arg is Undefined else dict(arg, **kwargs))
             for pname in params:
                 if pname in refs:
                     continue
